@@ -62,7 +62,7 @@ Section Sound.
   Lemma alpha_eval_flag st f : In (eval_flag E st f) (a_eval_flag (p_showtb E) (p_throw E) (alpha st) f).
   Proof.
     unfold eval_flag, a_eval_flag, alpha.
-    destruct f; try (destruct (e_cond E (tick st) _); cbn; tauto); try (cbn; tauto).
+    destruct f; try (destruct (e_cond E _ _); cbn; tauto); try (cbn; tauto).
     destruct (memZ _ _); cbn; tauto.
   Qed.
 
